@@ -102,6 +102,13 @@ def hexpr_vtl(h, top=True):
     if k == "bin":
         s = f"{hexpr_vtl(h[2], False)} {h[1]} {hexpr_vtl(h[3], False)}"
         return s if top else f"({s})"
+    if k == "un":       # not (x) | isnull(x)
+        if h[1] == "isnull":
+            return f"isnull({hexpr_vtl(h[2])})"
+        s = f"not ({hexpr_vtl(h[2])})"
+        return s if top else f"({s})"
+    if k == "paren":    # redundant parentheses around the whole condition (text only)
+        return f"({hexpr_vtl(h[1])})"
     raise ValueError(h)
 
 
@@ -115,6 +122,10 @@ def hexpr_coq(h):
         return f"(HLit {V.to_val(h[2], h[1])})"
     if k == "bin":
         return f"(HBin {BIN[h[1]]} {hexpr_coq(h[2])} {hexpr_coq(h[3])})"
+    if k == "un":
+        return f"(HUn {'Not' if h[1] == 'not' else 'IsNull'} {hexpr_coq(h[2])})"
+    if k == "paren":
+        return hexpr_coq(h[1])
     raise ValueError(h)
 
 
@@ -291,9 +302,25 @@ def gen_having(rng, comp_candidates: List[Tuple[Any, str]]):
             return ["bin", rng.choice(list(CMP)), ["agg", "count", c], ["lit", "Integer", rng.choice([0, 1, 2])]]
         _, _, v = G.lit(rng, t, allow_null=False)
         return ["bin", rng.choice(["=", "<>", ">", "<"] if t == "String" else ["=", "<>"]), ["agg", op, c], ["lit", t, v]]
-    a = atom()
+    def boolean_atom():
+        a = atom()
+        x = rng.random()
+        if x < 0.10:
+            return ["un", "not", a]
+        if x < 0.18 and comp_candidates:      # isnull(agg(comp)) / not (isnull(…))
+            c, t = rng.choice(comp_candidates)
+            op = rng.choice(["sum", "avg", "max"] if t in G.NUMERIC else ["min", "max"])
+            e: Any = ["un", "isnull", ["agg", op, c]]
+            return ["un", "not", e] if rng.random() < 0.5 else e
+        return a
+    a = boolean_atom()
     if rng.random() < 0.3:
-        return ["bin", rng.choice(["and", "or"]), a, atom()]
+        a = ["bin", rng.choice(["and", "or"]), a, boolean_atom()]
+    x = rng.random()
+    if x < 0.06:
+        return ["paren", a]
+    if x < 0.12:
+        return ["un", "not", a]
     return a
 
 
@@ -348,6 +375,10 @@ def gen_main(rng, src: str, sh: G.Shape, form: str, want_having: bool, defect: O
             if rng.random() < 0.15:
                 items.append([nme, "count", None])
                 continue
+            if not want_having and sh.ids and rng.random() < 0.12:      # an aggregated identifier
+                idn, idt = rng.choice(sh.ids)
+                items.append([nme, rng.choice(list(OPS) if idt in G.NUMERIC else list(ANY_TYPE_OPS)), ["col", idn]])
+                continue
             op = rng.choice(list(OPS))
             c = gen_comp(rng, sh.ms, (lambda t: t in G.NUMERIC) if op in NUM_OPS else (lambda t: True))
             if c is None:
@@ -368,7 +399,20 @@ def having_comps(h, acc=None):
     elif h[0] == "bin":
         having_comps(h[2], acc)
         having_comps(h[3], acc)
+    elif h[0] == "un":
+        having_comps(h[2], acc)
+    elif h[0] == "paren":
+        having_comps(h[1], acc)
     return acc
+
+
+def has_andor(h) -> bool:
+    """the condition combines two group aggregates with and/or somewhere"""
+    if h is None or h[0] in ("agg", "count", "lit"):
+        return False
+    if h[0] == "bin":
+        return h[1] in ("and", "or") or has_andor(h[2]) or has_andor(h[3])
+    return has_andor(h[2] if h[0] == "un" else h[1])
 
 
 def unsupported_having(s, sh: G.Shape) -> Optional[str]:
@@ -378,7 +422,7 @@ def unsupported_having(s, sh: G.Shape) -> Optional[str]:
     g, ids = s["grouping"], [n for n, _ in sh.ids]
     left = [i for i in ids if (g[0] == "by" and i in g[1]) or (g[0] == "except" and i not in g[1])]
     h = s["having"]
-    andor = "and-or-of-two-aggregates-with-no-identifier-left" if (not left and h[0] == "bin" and h[1] in ("and", "or")) else None
+    andor = "and-or-of-two-aggregates-with-no-identifier-left" if (not left and has_andor(h)) else None
     if s["kind"] == "agg":
         return "standalone:operand-with-several-measures" if len(sh.ms) != 1 else andor
     comps = having_comps(s["having"])
@@ -394,10 +438,6 @@ def unsupported_having(s, sh: G.Shape) -> Optional[str]:
 def engine_limitation(s, sh: G.Shape) -> Optional[str]:
     """names the known engine limitation a statement runs into (None when the shape is supported); the label starts the key of
     the finding"""
-    if s["kind"] == "agg" and s["op"] in ("min", "max") and not sh.ms:
-        g, ids = s["grouping"], [n for n, _ in sh.ids]
-        if not [i for i in ids if (g[0] == "by" and i in g[1]) or (g[0] == "except" and i not in g[1])]:
-            return "min-max:operand-without-measures-and-no-identifier-left"
     if s["kind"] in ("agg", "clause"):
         u = unsupported_having(s, sh)
         return ("having:" + u) if u else None
@@ -405,8 +445,8 @@ def engine_limitation(s, sh: G.Shape) -> Optional[str]:
 
 
 def make_case(rng, tier, stream="main"):
-    """stream: 'main' | 'defect' (the shape the engine is known to fail on: min/max over an operand without measures and without
-    grouping identifier).  Half of the having clauses of the main stream are 'free' (operands with several measures, conditions
+    """stream: 'main' | 'defect' (expected-error stream: min/max over an operand without measures and without grouping identifier,
+    which the engine failed on inside DuckDB before its fix and now rejects with 1-1-1-8, like the model).  Half of the having clauses of the main stream are 'free' (operands with several measures, conditions
     over other components than the aggregated ones, and/or with no identifier left): shapes the engine rejected before its
     having fix; `limitation` keeps their label so that a regression gets a specific key."""
     for _ in range(30):
@@ -475,15 +515,11 @@ def make_case(rng, tier, stream="main"):
             continue
         if andor_noid:       # no identifier left + a condition combining two aggregates
             s["grouping"] = ["except", [n for n, _ in sh.ids]]
-            if s["having"][0] != "bin" or s["having"][1] not in ("and", "or"):
+            if not has_andor(s["having"]):
                 s["having"] = ["bin", rng.choice(["and", "or"]), s["having"], gen_having(rng, [(["col", sh.ms[0][0]], sh.ms[0][1])])]
                 if s["having"][3][0] == "bin" and s["having"][3][1] in ("and", "or"):
                     s["having"][3] = s["having"][3][2]
         lim = engine_limitation(s, sh)
-        if stream == "main" and lim is not None and lim.startswith("min-max"):
-            continue
-        if stream == "defect" and lim is None:
-            continue
         stmts.append(("DS_r", s))
         return {"dss": dss, "structs": structs, "dps": dps, "stmts": stmts, "stream": stream, "limitation": lim,
                 "src_shape": sh, "null_groups": d["null_groups"]}
@@ -775,6 +811,13 @@ def _hev(h, grp, names_ms):
         return (len(grp) if not names_ms else sum(1 for r in grp if any(r[n] is not None for n in names_ms))) or None
     if k == "lit":
         return Fraction(h[2]) if (h[1] == "Number" and h[2] is not None) else h[2]
+    if k == "paren":
+        return _hev(h[1], grp, names_ms)
+    if k == "un":
+        v = _hev(h[2], grp, names_ms)
+        if h[1] == "isnull":
+            return v is None
+        return None if v is None else (not v)
     return _cev(["bin", h[1], ["lit", "x", _hev(h[2], grp, names_ms)], ["lit", "x", _hev(h[3], grp, names_ms)]], {})
 
 
@@ -817,6 +860,8 @@ def reference_verdict(c, er) -> Optional[str]:
     ids, ms = [n for n, _ in d["shape"].ids], [n for n, _ in d["shape"].ms]
     rows = [dict(zip(ids + ms, list(k) + list(m))) for k, m in d["rows"]]
     gids, out_ms, out = ref_eval(s, ids, ms, rows)
+    if s["kind"] == "agg" and s["op"] in ("min", "max") and not ms and not gids:      # no component left: must be rejected
+        return None if (not er["ok"] and er["err"] == ("Semantic", "1-1-1-8")) else "min/max without measures and identifiers must raise 1-1-1-8"
     if not er["ok"]:
         return f"the engine raises {er['err'][0]} {er['err'][1]} where the property demands a dataset with {len(out)} datapoints"
     return compare_rows(er, gids, out_ms, out, modes_of(s), None, who="reference")
@@ -846,6 +891,17 @@ def shrink(c, still_bad, budget=40):
                 if still_bad(cand):
                     cur = cand
     h = cur["stmts"][-1][1].get("having")
+    while h and h[0] in ("paren", "un") and budget > 0:      # strip an outer (…) / not / isnull while the disagreement persists
+        s2 = dict(cur["stmts"][-1][1])
+        s2["having"] = h[1] if h[0] == "paren" else h[2]
+        if s2["having"][0] in ("agg", "count", "lit"):
+            break
+        cand = dict(cur)
+        cand["stmts"] = cur["stmts"][:-1] + [("DS_r", s2)]
+        budget -= 1
+        if not still_bad(cand):
+            break
+        cur, h = cand, s2["having"]
     if h and h[0] == "bin" and h[1] in ("and", "or"):
         for side in (2, 3):
             s2 = dict(cur["stmts"][-1][1])
@@ -898,6 +954,12 @@ def _ops_of(s):
         elif h[0] == "bin":
             walk(h[2])
             walk(h[3])
+        elif h[0] == "un":
+            out.append("having:" + h[1])
+            walk(h[2])
+        elif h[0] == "paren":
+            out.append("having:(…)")
+            walk(h[1])
     walk(s.get("having"))
     return out
 
@@ -973,15 +1035,19 @@ def run_k(ctx, n_main, n_defect, tag="c03"):
     for c, m, er in zip(cases, model, engine_results):
         s = c["stmts"][-1][1]
         modes = modes_of(s)
+        c0_ids = c["src_shape"].ids
         for o in _ops_of(s):
             note("operators", o)
         note("forms", ("standalone" if s["kind"] == "agg" else "clause") + ("+chain" if len(c["stmts"]) > 1 else "") +
-             (":known-defect-stream" if c["stream"] == "defect" else ""))
+             (":expected-error-stream" if c["stream"] == "defect" else ""))
         if s.get("having"):
             note("having_shape", (c.get("limitation") or "one-measure operand, condition on the aggregated component").replace("having:", ""))
         note("grouping", grouping_label(s["grouping"], [n for n, _ in c["src_shape"].ids]))
         h = s.get("having")
-        note("having", "none" if not h else (h[1] if h[0] == "bin" and h[1] in ("and", "or") else "atom"))
+        note("having", "none" if not h else (h[1] if h[0] == "bin" and h[1] in ("and", "or") else
+                                             "not" if h[0] == "un" and h[1] == "not" else "(…)" if h[0] == "paren" else "atom"))
+        if s["kind"] == "clause" and any(c is not None and c[0] == "col" and c[1] in [n for n, _ in c0_ids] for _, _, c in s["items"]):
+            note("forms", "clause item aggregating an identifier")
         for z in group_sizes(c):
             note("group_sizes", bucket(z))
         note("input_rows", bucket(len(c["dss"]["DS_1"]["rows"])))
@@ -1029,7 +1095,7 @@ def run_k(ctx, n_main, n_defect, tag="c03"):
             ctx.oblige("K: Model/Aggr.v agrees with the engine wherever the engine satisfies the reference predicate", False, what)
         ctx.violation(key, what, {"case": case_json(c), "disagreement": d, "reference_verdict": verdict}, found_input=engine_bad)
     ctx.cov["distribution"] = {k: dict(sorted(v.items(), key=lambda x: -x[1])) for k, v in hist.items()}
-    ctx.cov["distribution"].update({"corpus": n_corpus, "generated_main": n_main, "generated_known_defect_stream": n_defect,
+    ctx.cov["distribution"].update({"corpus": n_corpus, "generated_main": n_main, "generated_expected_error_stream": n_defect,
                                     "double_valued_comparisons": stats})
     ctx.cov["disagreements"] = dis
     return dis
